@@ -47,7 +47,8 @@ def is_failure(ev):
 
 
 def work(chunk_id, payload):
-    seed, nhist, nops, binary, workroot, memcheck_bin, nmem, clang_bin = payload
+    seed, nhist, nops, binary, workroot, memcheck_bin, nmem, clang_bin, \
+        fibin, nio = payload
     part = dict(evaluations=0, counters={}, maxima={}, distinct=set(),
                 samples=[], violations=[], inconclusive=[], harness_errors=[])
     cnt = part["counters"]
@@ -134,6 +135,28 @@ def work(chunk_id, payload):
                     cnt["operations_second_opinion"] = cnt.get(
                         "operations_second_opinion", 0) + len(res.events)
         cases = cases + extra
+    # error paths behind I/O failures: every file function once under a
+    # persistent stdio fault (fi build), judged on sanitizer reports, leaks,
+    # crashes and hangs only (C11 judges what the calls report)
+    if fibin and nio > 0:
+        import gen_iofault
+        iocases = []
+        for k in range(nio):
+            rng = np.random.default_rng([seed, chunk_id, k, 305])
+            name, t3, _ = gen_iofault.generate(rng, chunk_id + k)
+            iocases.append(("io%d_%d_%s" % (chunk_id, k, name), t3))
+        ires = R.run_cases(fibin, iocases, wd + "io", timeout=1800,
+                           watchdog=60)
+        for cid, text in iocases:
+            res = ires[cid]
+            v, inc = R.standard_violations(res, text, PROP)
+            part["violations"] += v
+            part["inconclusive"] += inc
+            if res.status == "ok":
+                cnt["iofault_histories"] = cnt.get("iofault_histories", 0) + 1
+                cnt["iofault_faults_delivered"] = cnt.get(
+                    "iofault_faults_delivered", 0) + sum(
+                        1 for e in res.events if e.get("iofired"))
     # memcheck sample on the plain build: uninitialised-value use, which
     # ASan cannot see
     if memcheck_bin and nmem > 0:
@@ -164,8 +187,10 @@ def main():
     membin = chk.build("plain")
     memper = 2 if chk.tier == "quick" else 16
     clang_bin = chk.build("gasan")
+    fibin = chk.build("fi")
+    nio = 18 if chk.tier == "quick" else 90
     payloads = [(chk.seed, per, nops, binary, chk.workroot, membin, memper,
-                 clang_bin) for i in range(nchunks)]
+                 clang_bin, fibin, nio) for i in range(nchunks)]
     for part in R.pmap(work, payloads):
         chk.merge(part)
     ops = {}
@@ -184,8 +209,9 @@ def main():
              "argument drawn from valid / boundary (-1, 0, n-1, n, n+1) / "
              "invalid domains, buffers always truthful for the dimensions "
              "passed; all objects freed and LeakSanitizer queried after every "
-             "history; distinct = distinct (function, outcome or first error "
-             "message) pairs observed",
+             "history; plus every file-writing / -reading function under a "
+             "persistent stdio fault (harness/failio.c); distinct = distinct "
+             "(function, outcome or first error message) pairs observed",
         min_events=16,
         assumptions=["ASan red zones miss non-adjacent overflows; UBSan covers "
                      "the enabled checks only",
